@@ -22,7 +22,8 @@ from vf.oracles.qref import q_ref
 LEVEL = "exploration"
 RULE = (
     "safety: brew(override=False) x learners {linear, svc, constant, noise, invert, knn memoriser, weak (degraded ranking), overfit (exact on its training rows, degraded elsewhere)} x label encodings "
-    "{1/-1, 1/0, bool} x best feature higher-/lower-is-better x text/Parquet x 1..2 files x folds 2..4, train_fdr = "
+    "{1/-1, 1/0, bool} x best feature higher-/lower-is-better x text/Parquet x 1..2 files x folds 2..4, FDR 0.05/0.1 on "
+    "small tables and 0.003/0.005 on tables of 5000-8000 PSMs, train_fdr = "
     "test_fdr; judged: fell back to a recorded best feature with its direction, or accepts >= the best feature's "
     "training count; recorded (best_feat, feat_pass, desc) is an arg-max over features x directions on the recorded "
     "training rows; override=True controls must return model scores. direction: assign_confidence on (x, desc=False) "
@@ -47,6 +48,12 @@ def plan(seed, tier):
                       "best_desc": bool((i // 24) % 2 == 0), "fmt": ["pin", "parquet"][(i // 3) % 2],
                       "nfiles": [1, 2][(i // 5) % 2], "folds": int(2 + (i // 7) % 3), "override": bool(i % 12 == 11),
                       "cost": 3})
+    # evaluation FDRs stricter than the library's internal defaults (large tables so that something is accepted)
+    k = 10 if tier == "quick" else 100
+    for i in range(k):
+        cases.append({"class": "safety", "index": 10000 + i, "learner": ["overfit", "weak", "knn:proba", "svc", "overfit"][i % 5],
+                      "enc": ENCS[i % 3], "best_desc": bool(i % 4 != 3), "fmt": ["pin", "parquet"][i % 2], "nfiles": 1,
+                      "folds": int(2 + i % 2), "override": False, "strict": True, "cost": 8})
     m = 12 if tier == "quick" else 120
     for i in range(m):
         cases.append({"class": "direction", "index": i, "fmt": ["pin", "parquet"][i % 2], "cost": 6})
@@ -65,11 +72,12 @@ def run_safety(case):
     tdc = core.mk("mokapot.qvalues").tdc
     rng = core.seed_seq(case["seed"], "C07", "safety", case["index"])
     res = Result(case)
-    fdr = float(rng.choice([0.05, 0.1]))
+    strict = bool(case.get("strict"))
+    fdr = float(rng.choice([0.003, 0.005])) if strict else float(rng.choice([0.05, 0.1]))
     with core.scratch("c07") as d:
         tabs, paths = [], []
         for fi in range(case["nfiles"]):
-            tab = psm.psm_table(rng, n_spectra=int(rng.integers(120, 220)) * case["folds"], mult_max=2,
+            tab = psm.psm_table(rng, n_spectra=(int(rng.integers(2500, 4000)) if strict else int(rng.integers(120, 220)) * case["folds"]), mult_max=2,
                                 key_cols=("ExpMass",), file_index=fi, label_enc=case["enc"],
                                 best_feature_desc=case["best_desc"], sep_strength=3.0, n_info=1, n_noise=3)
             tabs.append(tab)
@@ -79,6 +87,7 @@ def run_safety(case):
                                 test_fdr=fdr, train_fdr=fdr, max_iter=2, override=case["override"])
         extra = {k: case[k] for k in ("learner", "enc", "best_desc", "fmt", "nfiles", "folds", "override")}
         extra["fdr"] = fdr
+        extra["strict"] = strict
         if out["status"].startswith("crash"):
             res.violate("crash", out["sig"], msg=out["error"]["msg"], **extra)
             return res
@@ -94,7 +103,10 @@ def run_safety(case):
                     for f in t["features"]:
                         for dsc in (True, False):
                             best = max(best, accepted(tdc, t["df"][f].values, tt, fdr, dsc))
-                if best >= 30:
+                # judged only at the loose FDRs: there a feature accepting >= 60 targets on the whole table cannot
+                # plausibly accept none on a training subset holding at least half of it (at 0.003 the step from
+                # "no decoy above 334 targets" to nothing is one decoy away, a legitimate refusal)
+                if best >= 60 and not strict:
                     res.violate("refused_although_a_feature_separates", "lower_is_better" if not case["best_desc"] else "higher_is_better",
                                 accepted_by_best_feature=best, msg=out["error"]["msg"], **extra)
             return res
